@@ -14,6 +14,11 @@ Decided:
   COVER-C39d  no false negatives needs every token inserted: the insertion loop of build_term_filter (and the token loop
               of generate_sketch that feeds it) leaves only through the exhaustion of its iterator - no break / early
               return / skip conditioned on anything else.
+  COVER-C39e  the pipeline from the tokenizer to the filter is lossless: in generate_sketch the hash list given to
+              build_term_filter derives from compute_token_weights(tokenize_for_sketch(text)) through map/collect only,
+              and in compute_token_weights (and generate_sketch) no token-dropping adaptor (filter, filter_map, take,
+              skip, take_while, skip_while, step_by, dedup) sits on the path from the token slice to the returned
+              (hash, weight) list, whose loop over the tokens inserts every token.
 Not decided: the probabilistic behaviour of the filter (false-positive rate), simhash values."""
 from . import lib
 from .facts import Place, op_place
@@ -39,6 +44,50 @@ def shifts(fn):
                             k = kv
             out.add(k)
     return out
+
+
+LOSSY = ('filter', 'filter_map', 'take', 'skip', 'take_while', 'skip_while', 'step_by', 'dedup', 'dedup_by', 'dedup_by_key', 'truncate', 'retain')
+
+
+def lossless_pipeline(ctx, F):
+    ctx.rule('COVER-C39e', 'tokens reach the term filter through map/collect only: no token-dropping adaptor between tokenize_for_sketch and build_term_filter')
+    gs = ctx.need('COVER-C39e', 'types::sketch_track::generate_sketch')
+    cw = ctx.need('COVER-C39e', 'types::sketch_track::compute_token_weights')
+    if gs is None or cw is None:
+        return
+    ctx.touch(gs, len(gs.blocks))
+    ctx.touch(cw, len(cw.blocks))
+    bt = [c for c in gs.calls() if c.is_(('types::sketch_track::build_term_filter', 'build_term_filter'))]
+    if not bt:
+        ctx.lost('COVER-C39e', 'generate_sketch no longer calls build_term_filter')
+        return
+    sl = lib.slice_back(gs, bt[0].args[:1], through_calls=True, at=(bt[0].bb, None))
+    names = {c.name for c in sl.calls}
+    ctx.evaluations += len(sl.calls)
+    has_tok = any(c.is_(('types::sketch_track::tokenize_for_sketch', 'tokenize_for_sketch')) for c in sl.calls)
+    has_w = any(c.is_(('types::sketch_track::compute_token_weights', 'compute_token_weights')) for c in sl.calls)
+    lossy = sorted(names & set(LOSSY))
+    if not has_tok or not has_w:
+        ctx.bad('COVER-C39e', gs, 'the hash list given to build_term_filter does not derive from compute_token_weights(tokenize_for_sketch(text))', line=bt[0].line, detail='filter-input-source')
+    elif lossy:
+        ctx.bad('COVER-C39e', gs, 'a token-dropping adaptor (%s) sits between the tokenizer and build_term_filter: the dropped tokens are reported absent by the filter' % ', '.join(lossy),
+                line=bt[0].line, detail='lossy-adaptor:' + ','.join(lossy))
+    else:
+        ctx.ok('COVER-C39e', gs, 'build_term_filter receives the hashes of compute_token_weights(tokenize_for_sketch(text)) through %s only' % ', '.join(sorted(names - {'tokenize_for_sketch', 'compute_token_weights'}) or ['moves']), line=bt[0].line)
+    # inside compute_token_weights: everything on the way from the token slice (argument 1) to the returned list
+    bodies = [cw] + F.closures_of(cw)
+    used = set()
+    for c in cw.calls():
+        if c.name in LOSSY:
+            rs = lib.slice_back(cw, c.args[:1], through_calls=True, at=(c.bb, None))
+            if 1 in rs.args:
+                used.add(c.name)
+    ctx.evaluations += len(cw.calls())
+    if used:
+        ctx.bad('COVER-C39e', cw, 'compute_token_weights drops tokens (%s on the chain that starts at the token slice): those tokens get no filter bits and are reported absent' % ', '.join(sorted(used)),
+                detail='lossy-adaptor-in-weights:' + ','.join(sorted(used)))
+    else:
+        ctx.ok('COVER-C39e', cw, 'no token-dropping adaptor on the chain from the token slice')
 
 
 def all_tokens_inserted(ctx, F):
@@ -86,6 +135,7 @@ def all_tokens_inserted(ctx, F):
 
 
 def run(ctx):
+    lossless_pipeline(ctx, ctx.facts())
     all_tokens_inserted(ctx, ctx.facts())
     ctx.rule('AGREE-C39a', 'probe bit positions ⊆ written bit positions (same (hash >> s) % (len*8) family)')
     ctx.rule('AGREE-C39b', 'index side and query side share tokenizer and hash; probed hashes are hash_token(query tokens)')
